@@ -7,6 +7,9 @@ import PM.Transform
 import Proofs.StepToks
 import Proofs.Undo
 import Proofs.UndoReplace
+import Proofs.UndoForward
+import Proofs.UndoAround
+import Proofs.UndoFit
 import Proofs.MarkupSuccess
 namespace PM.C04
 open PM
@@ -169,18 +172,27 @@ theorem replace_undo_partial (S : Schema) (doc doc' doc'' : Node) (f t : Nat) (s
       exact splice_undo (ftoks K) sl.toks f t hft (by rw [ftoks_length]; exact ht)
     rw [ftoks_inj K'' K hn'' hn this]
 
-/- The full statement (the inverse of every applicable replace step applies):
+/- The full, unguarded statement (the inverse of every applicable replace step applies):
 
-     replace_undo : (hd : Valid S doc) (hn : fnorm doc.kids) (hsn : fnorm sl.content)
+     replace_undo_unguarded : (hd : S.checkNode doc) (hn : fnorm doc.kids) (hsn : fnorm sl.content)
          (h1 : S.apply (.replace f t sl b) doc = .ok doc') (hi : S.invert (.replace f t sl b) doc = .ok inv)
          (ha : pair-alignment of `f` and `f + sl.size` in `doc'`) : S.apply inv doc' = .ok doc
 
-   is proved below for *flat* replaces (`replace_undo_closed`): the step's slice is closed and the range it
-   replaces lies in one parent with both ends at child boundaries or inside text (the old slice is closed).
-   Missing for open slices / ranges across node boundaries: a structural description of what `threeWay`
-   builds along the two spines (the inverse re-joins nodes of `doc'` that the forward step rebuilt; its
-   `check_join` pairs are symmetric images of pairs the forward step checked, its `close` arguments are
-   contents of nodes of `doc`).  `replace_undo_partial` covers those cases conditionally.  -/
+   is FALSE, in the model and in the code (and upstream): `compatible_content` is symmetric but not
+   transitive.  When the slice is a single node `C` open on both sides, the forward step checks
+   `C ~ A` and `B ~ C` for `from`'s ancestor `A` and `to`'s ancestor `B` and merges the two sides
+   through `C`; the inverse has to re-split the merged `A` node and checks `A ~ B`, which the forward
+   step never did.  `replace_undo_needs_guard` below is the checked counterexample.
+
+   What holds is `replace_undo`: the same statement with the decidable guard
+   `sidesCompatible S doc f t sl` — at the depths `d` with `e < d ≤ e + n`
+   (`e = depth(f) − openStart`, `n = singleDepth` = number of nested levels at which the slice is a single
+   node open on both sides) the ancestors of `f` and `t` in `doc` have compatible types.  The guard is
+   vacuous for slices closed on one side (`replace_undo_closed_side`) and it is exactly what the proof
+   needs: every other `check_join` of the inverse is a pair of equal types or the mirror image of a pair
+   the forward step checked, and every `close` re-validates the content of a node of `doc`.
+   Proof: `Proofs/UndoRel.lean` (relations), `Proofs/UndoForward.lean` (what the forward step leaves),
+   `Proofs/UndoInverse.lean` (the inverse succeeds).  -/
 
 /-- **the inverse of a flat replace step applies and restores the document exactly.**
     `doc` valid (`Node.check`) and in normal form, the step's slice closed and in normal form, the replaced
@@ -259,6 +271,195 @@ example : tinyS.apply (.replace 2 3 ⟨[.text [98] []], 0, 0⟩ false) tinyDoc' 
     subst h; exact ⟨rfl, rfl⟩
   · simp [tinyDoc', Node.kids, tinySl, alignedAt, splitOk, isHigh, isLow]
 end Example
+
+/-- **the inverse of a successfully applied replace step applies and restores the document exactly**
+    (general case: open slices, ranges across node boundaries).
+    `doc` valid (`Node.check`) and in normal form, the slice in normal form.
+    `hj`: the guard `sidesCompatible` (see the comment above; without it the statement is false,
+    `replace_undo_needs_guard`).
+    `ha`: the two ends of the inserted content do not fall between the halves of a surrogate pair of
+    `doc'` (Python strings cannot). -/
+theorem replace_undo (S : Schema) (doc doc' : Node) (f t : Nat) (sl : Slice) (b : Bool) (inv : Step)
+    (hd : S.checkNode doc = true) (hn : fnorm doc.kids = true) (hsn : fnorm sl.content = true)
+    (h1 : S.apply (.replace f t sl b) doc = .ok doc')
+    (hi : S.invert (.replace f t sl b) doc = .ok inv)
+    (hj : sidesCompatible S doc f t sl = true)
+    (ha : alignedAt doc'.kids f = true ∧ alignedAt doc'.kids (f + sl.size.toNat) = true) :
+    S.apply inv doc' = .ok doc := by
+  obtain ⟨ty, a, m, K, K', rfl, rfl, hr1⟩ :=
+    fromReplace_elem S doc doc' f t sl (apply_replace_fromReplace S doc doc' f t sl b h1)
+  simp only [Node.kids] at hn ha
+  simp only [sidesCompatible, Node.kids] at hj
+  have hd' := hd
+  simp only [checkNode_elem, Bool.and_eq_true] at hd'
+  have hi' := hi
+  simp only [Schema.invert] at hi'
+  cases hsl : (Node.elem ty a m K).slice f t with
+  | error e => simp [hsl] at hi'
+  | ok old =>
+    simp only [hsl, Except.ok.injEq] at hi'
+    subst hi'
+    have hsl' : sliceKids K f t = .ok old := hsl
+    obtain ⟨hft, ht, hwf⟩ := replaceKids_guards S ty K f t sl K' hr1
+    have hn' := replaceKids_norm S ty K f t sl K' hn hsn hr1
+    have htk := replaceKids_toks S ty K f t sl K' hr1
+    have hsz := replaceKids_size S ty K f t sl K' hr1
+    have hs0 : 0 ≤ sl.size := by
+      have := spine_sum_le sl.content
+      simp only [Slice.wf, Bool.and_eq_true, decide_eq_true_eq] at hwf
+      simp only [Slice.size]; omega
+    have hpos : fsize K' - (fsize K - t) = f + sl.size.toNat := by omega
+    -- left of `f` nothing changed
+    have hL : LeftRel K' K f := by
+      refine leftRel_of_toks K' K f hn' hn (by omega) (by omega) ha.1 ?_
+      rw [htk, List.append_assoc, take_app_le _ _ _ (by simp [ftoks_length]; omega),
+        List.take_of_length_le (by simp; omega)]
+    -- right of the inserted content
+    have hR : RightRel S K' (f + sl.size.toNat) K t := by
+      have := replaceKids_rrel S ty K K' f t sl hn hsn hr1 hj (by rw [hpos]; exact ha.2)
+      rwa [hpos] at this
+    obtain ⟨X, hX⟩ := replaceKids_undoG S ty K K' f t (f + sl.size.toNat) old hd'.1.1 hd'.2 hn hn'
+      hft ht (by omega) hsl' hL hR
+    have h2 : S.apply (.replace f (f + sl.size.toNat) old false) (Node.elem ty a m K')
+        = .ok (Node.elem ty a m X) := by
+      simp [Schema.apply, Schema.fromReplace, Schema.replace, hX, Except.map]
+    have := replace_undo_partial S _ _ _ f t sl b _ (by simpa [Node.kids] using hn) hsn h1 hi h2
+    rw [this] at h2
+    exact h2
+
+/-- no guard is needed when the slice is closed on at least one side (in particular for deletions,
+    `sl = Slice.empty`, across any node boundaries, and for every closed slice over any range) -/
+theorem replace_undo_closed_side (S : Schema) (doc doc' : Node) (f t : Nat) (sl : Slice) (b : Bool)
+    (inv : Step) (hd : S.checkNode doc = true) (hn : fnorm doc.kids = true)
+    (hsn : fnorm sl.content = true) (hc : sl.openStart = 0 ∨ sl.openEnd = 0)
+    (h1 : S.apply (.replace f t sl b) doc = .ok doc')
+    (hi : S.invert (.replace f t sl b) doc = .ok inv)
+    (ha : alignedAt doc'.kids f = true ∧ alignedAt doc'.kids (f + sl.size.toNat) = true) :
+    S.apply inv doc' = .ok doc :=
+  replace_undo S doc doc' f t sl b inv hd hn hsn h1 hi (sidesCompatible_of_closed S doc f t sl hc) ha
+
+/-- **no guard is needed in a schema whose `compatible_content` is transitive** (`compatTransB S`, a
+    finite check over the node types; true e.g. of the basic and list schemas): the inverse of every
+    successfully applied replace step applies and restores the document. -/
+theorem replace_undo_transitive (S : Schema) (doc doc' : Node) (f t : Nat) (sl : Slice) (b : Bool)
+    (inv : Step) (htr : compatTransB S = true)
+    (hd : S.checkNode doc = true) (hn : fnorm doc.kids = true) (hsn : fnorm sl.content = true)
+    (h1 : S.apply (.replace f t sl b) doc = .ok doc')
+    (hi : S.invert (.replace f t sl b) doc = .ok inv)
+    (ha : alignedAt doc'.kids f = true ∧ alignedAt doc'.kids (f + sl.size.toNat) = true) :
+    S.apply inv doc' = .ok doc := by
+  refine replace_undo S doc doc' f t sl b inv hd hn hsn h1 hi ?_ ha
+  obtain ⟨ty, a, m, K, K', rfl, rfl, hr1⟩ :=
+    fromReplace_elem S doc doc' f t sl (apply_replace_fromReplace S doc doc' f t sl b h1)
+  exact sidesCompatible_of_trans S (compatTrans_of_B S htr) ty a m K K' f t sl hn hr1
+
+example : compatTransB tinyS = true := by decide
+
+/-! Non-vacuity of `replace_undo` with a slice open on both sides: in `doc(p("ab"), p("c"))` the step
+    "replace 3 … 5 (`</p><p>`) by the slice `p()` open on both sides" joins the paragraphs through the
+    slice node, `doc(p("abc"))`; its inverse re-inserts `⟨[p(), p()], 1, 1⟩` at 3 and splits again. -/
+section ExampleOpen
+private def joinSl : Slice := ⟨[.elem 1 [] [] []], 1, 1⟩
+private def joinDoc' : Node := .elem 0 [] [] [.elem 1 [] [] [.text [97, 98, 99] []]]
+private def joinInv : Step := .replace 3 3 ⟨[.elem 1 [] [] [], .elem 1 [] [] []], 1, 1⟩ false
+
+private theorem join_fwd : tinyS.apply (.replace 3 5 joinSl false) tinyDoc = .ok joinDoc' := by
+  have hc : tinyS.compatibleContent 1 1 = true := by decide
+  have hv : tinyS.validContent 1 [Node.text [97, 98, 99] []] = true := by decide
+  have hv0 : tinyS.validContent 0 [Node.elem 1 [] [] [Node.text [97, 98, 99] []]] = true := by decide
+  simp [Schema.apply, Schema.fromReplace, Schema.replace, joinSl, tinyDoc, joinDoc', replaceKids,
+    inRange, depthAt, Slice.wf, spineL, spineR, outer, atLevel, threeWay, splitRight, rightJoin, middle,
+    flatTail, Schema.close, fromArray, addNodes, addNode, hc, hv, hv0, Except.map, RSplit.rest]
+
+private theorem join_inv : tinyS.invert (.replace 3 5 joinSl false) tinyDoc = .ok joinInv := by
+  simp [Schema.invert, Node.slice, Node.kids, tinyDoc, joinSl, joinInv, sliceKids, inRange, sliceScan,
+    sliceHere, fcut, fcutLoop, Node.cut, depthAt, Slice.size]
+
+example : tinyS.apply joinInv joinDoc' = .ok tinyDoc := by
+  refine replace_undo tinyS tinyDoc joinDoc' 3 5 joinSl false _ ?_ ?_ ?_ join_fwd join_inv ?_ ?_
+  · simp [tinyDoc, Schema.checkNode, Schema.checkKids]; decide
+  · simp [tinyDoc, Node.kids, fnorm, fnormKids, Node.norm, chainOk, adjOk]
+  · simp [joinSl, fnorm, fnormKids, Node.norm, chainOk]
+  · simp [sidesCompatible, bridgeCompat, ancCompat, singleDepth, joinSl, tinyDoc, Node.kids, depthAt,
+      splitRight]
+    decide
+  · simp [joinDoc', Node.kids, joinSl, Slice.size, alignedAt, splitOk, isHigh, isLow]
+end ExampleOpen
+
+/-! The guard of `replace_undo` cannot be dropped: a schema in which `compatible_content` is not
+    transitive.  `doc "(A|B|C)*"`, `A "p q*"`, `B "q+"`, `C "(p|q)*"`, `p`, `q` leaves:
+    `A ~ C` (both can start with `p`), `C ~ B` (`q`), but not `A ~ B`. -/
+section NeedsGuard
+private def nt (name : String) (leaf : Bool) (dfa : Array DfaState) : NodeType :=
+  { name := name, isText := false, isInline := false, isLeaf := leaf, isAtom := leaf,
+    inlineContent := false, isolating := false, defining := false, code := false,
+    dfa := dfa, markSet := some [], attrs := [] }
+
+private def brS : Schema :=
+  { nodes := #[
+      nt "doc" false #[⟨true, [(1, 0), (2, 0), (3, 0)]⟩],
+      nt "A" false #[⟨false, [(4, 1)]⟩, ⟨true, [(5, 1)]⟩],
+      nt "B" false #[⟨false, [(5, 1)]⟩, ⟨true, [(5, 1)]⟩],
+      nt "C" false #[⟨true, [(4, 0), (5, 0)]⟩],
+      nt "p" true #[⟨true, []⟩],
+      nt "q" true #[⟨true, []⟩],
+      { nt "text" true #[⟨true, []⟩] with isText := true, isInline := true }],
+    marks := #[], top := 0, textTy := 6 }
+
+/-- `doc(A(p, q), B(q, q))` -/
+private def brDoc : Node :=
+  .elem 0 [] [] [.elem 1 [] [] [.leaf 4 [] [], .leaf 5 [] []], .elem 2 [] [] [.leaf 5 [] [], .leaf 5 [] []]]
+/-- the slice `C()` open on both sides -/
+private def brSl : Slice := ⟨[.elem 3 [] [] []], 1, 1⟩
+/-- `doc(A(p, q, q))` -/
+private def brDoc' : Node := .elem 0 [] [] [.elem 1 [] [] [.leaf 4 [] [], .leaf 5 [] [], .leaf 5 [] []]]
+private def brInv : Step :=
+  .replace 3 3 ⟨[.elem 1 [] [] [], .elem 2 [] [] [.leaf 5 [] []]], 1, 1⟩ false
+
+private theorem br_fwd : brS.apply (.replace 3 6 brSl false) brDoc = .ok brDoc' := by
+  have hc1 : brS.compatibleContent 3 1 = true := by decide
+  have hc2 : brS.compatibleContent 2 3 = true := by decide
+  have hv : brS.validContent 1 [Node.leaf 4 [] [], Node.leaf 5 [] [], Node.leaf 5 [] []] = true := by decide
+  have hv0 : brS.validContent 0 [Node.elem 1 [] [] [Node.leaf 4 [] [], Node.leaf 5 [] [], Node.leaf 5 [] []]]
+      = true := by decide
+  simp [Schema.apply, Schema.fromReplace, Schema.replace, brSl, brDoc, brDoc', replaceKids, inRange,
+    depthAt, Slice.wf, spineL, spineR, outer, atLevel, threeWay, splitRight, rightJoin, middle, flatTail,
+    Schema.close, fromArray, addNodes, addNode, hc1, hc2, hv, hv0, Except.map, RSplit.rest]
+
+private theorem br_inv : brS.invert (.replace 3 6 brSl false) brDoc = .ok brInv := by
+  simp [Schema.invert, Node.slice, Node.kids, brDoc, brSl, brInv, sliceKids, inRange, sliceScan,
+    sliceHere, fcut, fcutLoop, Node.cut, depthAt, Slice.size, Except.map]
+
+private theorem br_undo_fails : brS.apply brInv brDoc' = .error .failed := by
+  have hc : brS.compatibleContent 1 2 = false := by decide
+  have hc1 : brS.compatibleContent 1 1 = true := by decide
+  have hv : brS.validContent 1 [Node.leaf 4 [] [], Node.leaf 5 [] []] = true := by decide
+  simp [Schema.apply, Schema.fromReplace, Schema.replace, brInv, brDoc', replaceKids, inRange,
+    depthAt, Slice.wf, spineL, spineR, outer, atLevel, threeWay, threeWay.rightJoinCheck, twoWay,
+    splitRight, rightJoin, Schema.close, fromArray, addNodes, addNode, hc, hc1, hv, Except.map]
+
+/-- **the guard `sidesCompatible` of `replace_undo` is necessary**: a valid normal-form document, a
+    normal-form slice, a replace step that applies, whose inverse is computed — and the inverse does
+    not apply (`failed`: "Cannot join A onto B"); every hypothesis of `replace_undo` except the guard
+    holds.  The same happens in the code (and upstream). -/
+theorem replace_undo_needs_guard :
+    ∃ (S : Schema) (doc doc' : Node) (f t : Nat) (sl : Slice) (inv : Step),
+      S.checkNode doc = true ∧ fnorm doc.kids = true ∧ fnorm sl.content = true ∧
+      S.apply (.replace f t sl false) doc = .ok doc' ∧
+      S.invert (.replace f t sl false) doc = .ok inv ∧
+      (alignedAt doc'.kids f = true ∧ alignedAt doc'.kids (f + sl.size.toNat) = true) ∧
+      sidesCompatible S doc f t sl = false ∧
+      S.apply inv doc' = .error .failed := by
+  refine ⟨brS, brDoc, brDoc', 3, 6, brSl, brInv, by decide, ?_, ?_, br_fwd, br_inv, ?_, ?_, br_undo_fails⟩
+  · simp [brDoc, Node.kids, fnorm, fnormKids, Node.norm, chainOk, adjOk]
+  · simp [brSl, fnorm, fnormKids, Node.norm, chainOk]
+  · simp [brDoc', Node.kids, brSl, Slice.size, alignedAt]
+  · simp [sidesCompatible, bridgeCompat, ancCompat, singleDepth, brSl, brDoc, Node.kids, depthAt,
+      splitRight]
+    decide
+/-- and indeed `compatible_content` is not transitive in that schema -/
+example : compatTransB brS = false := by decide
+end NeedsGuard
 
 /-- **exact undo of a replace-around step** (same proviso) -/
 theorem replaceAround_undo_partial (S : Schema) (doc doc' doc'' : Node) (f t gf gt : Nat) (sl : Slice)
@@ -349,6 +550,388 @@ theorem replaceAround_undo_partial (S : Schema) (doc doc' doc'' : Node) (f t gf 
           win_drop _ _ _ (by simp; omega)]
         simp
       rw [ftoks_inj K'' K hn'' hn this]
+
+/- The full statement for replace-around steps,
+
+     replaceAround_undo_unguarded : (hd : S.checkNode doc) (hn : fnorm doc.kids) (hsn : fnorm sl.content) …
+         (h1 : S.apply (.replaceAround f t gf gt sl ins b) doc = .ok doc') (hi : S.invert … doc = .ok inv) :
+         S.apply inv doc' = .ok doc
+
+   is FALSE in the model and in the code, for three independent reasons, each a check of the inverse step
+   that a successful forward step does not imply:
+   * the structure flag (known finding C04-structure-inverse): the inverse inherits `structure = true` and
+     refuses when the slice carried content beside the wrapper tokens — hypothesis `hst`;
+   * the fit check of `insert_into` (`parent.can_replace(index, index, insert)`), which at a position inside
+     a text child counts that text twice, and after `remove_range` merged two texts around the gap puts the
+     gap before the merged text: e.g. `X "text?"`, `doc(X("abXYcd"))`, replace-around 0…8 with gap 3…5 and
+     slice `Z()`: the inverse is rejected with "Content does not fit in gap" — hypothesis `hfit`;
+   * the final replace of the inverse, as for plain replace steps — guard `hj` (`sidesCompatible` for the
+     slice with the gap inserted).
+   `replaceAround_undo` below proves the statement under these three decidable hypotheses (and the
+   pair-alignment proviso); `replaceAround_undo_needs_guard` is the checked counterexample for the fit
+   check.  `replaceAround_undo_structural` discharges the fit guard for the shapes `lift`, `wrap` and
+   `set_node_markup` emit (`gapClean`: the gap lies between complete children, no text merge across it);
+   the structure checks `hst` stay a hypothesis (two `content_between` evaluations on `doc'`). -/
+
+/-- **the inverse of a successfully applied replace-around step applies and restores the document**,
+    provided the three checks of the inverse that the forward step does not imply pass:
+    `hst` — the structure checks of the inverse (only if the step carries the structure flag);
+    `hfit` — putting the gap back into the old slice is not rejected by `insert_into`'s fit check
+    (`gapFitsBack`, PM/UndoGuard.lean);
+    `hj` — the guard of `replace_undo` for the slice with the gap inserted (`sidesCompatibleAround`).
+    `ha`: the four positions the inverse resolves in `doc'` do not split a surrogate pair. -/
+theorem replaceAround_undo (S : Schema) (doc doc' : Node) (f t gf gt : Nat) (sl : Slice)
+    (ins : Nat) (b : Bool) (inv : Step)
+    (hd : S.checkNode doc = true) (hn : fnorm doc.kids = true) (hsn : fnorm sl.content = true)
+    (hwf : sl.wf = true) (hins : (ins : Int) ≤ sl.size) (hg : f ≤ gf ∧ gf ≤ gt ∧ gt ≤ t)
+    (h1 : S.apply (.replaceAround f t gf gt sl ins b) doc = .ok doc')
+    (hi : S.invert (.replaceAround f t gf gt sl ins b) doc = .ok inv)
+    (hst : b = true → contentBetween doc' f (f + ins) = some false ∧
+      contentBetween doc' (f + ins + (gt - gf)) (f + sl.size.toNat + (gt - gf)) = some false)
+    (hfit : gapFitsBack S doc f t gf gt = true)
+    (hj : sidesCompatibleAround S doc f t gf gt sl ins = true)
+    (ha : alignedAt doc'.kids f = true ∧ alignedAt doc'.kids (f + ins) = true ∧
+      alignedAt doc'.kids (f + ins + (gt - gf)) = true ∧
+      alignedAt doc'.kids (f + sl.size.toNat + (gt - gf)) = true) :
+    S.apply inv doc' = .ok doc := by
+  obtain ⟨gap, inserted, hgap, hgo1, hgo2, hinst, hfr1⟩ :=
+    apply_replaceAround_parts S doc doc' f t gf gt sl ins b h1
+  obtain ⟨hK', htK, _⟩ := apply_replaceAround_toks S doc doc' f t gf gt sl ins b hwf hins hg h1
+  have hj' : sidesCompatible S doc f t inserted = true := by
+    simpa [sidesCompatibleAround, hgap, hinst] using hj
+  obtain ⟨ty, a, m, K, K', rfl, rfl, hr1⟩ := fromReplace_elem S doc doc' f t inserted hfr1
+  simp only [Node.kids] at hn hK' htK ha
+  have hgap' : sliceKids K gf gt = .ok gap := hgap
+  have hgn := sliceKids_norm K gf gt gap hn hgap'
+  have hin := insertAt_norm S sl inserted ins gap.content hsn hgn.1 hinst
+  have hn' := replaceKids_norm S ty K f t inserted K' hn hin hr1
+  obtain ⟨hTlen, _⟩ := Slice.toks_length_of_wf hwf
+  have hs0 : 0 ≤ sl.size := by omega
+  -- the gap's tokens
+  have hgclosed : gap = ⟨gap.content, 0, 0⟩ := by
+    cases gap; simp at hgo1 hgo2; simp [hgo1, hgo2]
+  have hGt : ftoks gap.content = ((ftoks K).drop gf).take (gt - gf) := by
+    rw [← Slice.toks_closed, ← hgclosed]
+    exact sliceKids_toks K gf gt gap hg.2.1 (by omega) hgap'
+  have hGlen : (ftoks gap.content).length = gt - gf := by
+    rw [hGt]; simp [ftoks_length]; omega
+  -- the inserted slice: the step is the plain replace by it
+  obtain ⟨hitk, hio1, hio2⟩ := insertAt_toks S sl inserted ins gap.content hwf hins hinst
+  have hisz : inserted.size.toNat = sl.size.toNat + (gt - gf) := by
+    have h1 := congrArg List.length hitk
+    have hw : inserted.wf = true := (replaceKids_guards S ty K f t inserted K' hr1).2.2
+    obtain ⟨hl2, _⟩ := Slice.toks_length_of_wf hw
+    simp only [List.length_append, List.length_take, List.length_drop, hGlen] at h1
+    omega
+  -- the inverse
+  simp only [Schema.invert] at hi
+  cases hsl : (Node.elem ty a m K).slice f t with
+  | error e => simp [hsl] at hi
+  | ok old =>
+    simp only [hsl] at hi
+    cases hrm : old.removeBetween (gf - f) (gt - f) with
+    | error e => simp [hrm] at hi
+    | ok rem =>
+      simp only [hrm, Except.ok.injEq] at hi
+      subst hi
+      have hsl' : sliceKids K f t = .ok old := hsl
+      have hon := sliceKids_norm K f t old hn hsl'
+      have hosz := sliceKids_size K f t old (by omega) htK hsl'
+      obtain ⟨x, hx⟩ : ∃ x, rem.insertAt S (gf - f) gap.content = .ok (some x) := by
+        simp only [gapFitsBack, hsl, hgap, hrm] at hfit
+        split at hfit
+        · exact ⟨_, by assumption⟩
+        · simp at hfit
+      -- the gap is found again in `doc'`
+      obtain ⟨A, P, G, Q, D, hK, hA, hP, hG, hQ⟩ := split5 (ftoks K) f gf gt t hg.1 hg.2.1 hg.2.2
+        (by rw [ftoks_length]; exact htK)
+      have eA : (ftoks K).take f = A := by
+        rw [hK, show A ++ P ++ G ++ Q ++ D = A ++ (P ++ G ++ Q ++ D) by simp]
+        exact win_take _ _ _ hA
+      have eG : ((ftoks K).drop gf).take (gt - gf) = G := by
+        rw [hK, show A ++ P ++ G ++ Q ++ D = (A ++ P) ++ G ++ (Q ++ D) by simp]
+        exact win_mid _ _ _ _ _ (by simp; omega) hG
+      have eD : (ftoks K).drop t = D := by
+        rw [hK]
+        exact win_drop _ _ _ (by simp; omega)
+      have eO : old.toks = P ++ G ++ Q := by
+        rw [sliceKids_toks K f t old (by omega) htK hsl', hK,
+          show A ++ P ++ G ++ Q ++ D = A ++ (P ++ G ++ Q) ++ D by simp]
+        exact win_mid _ _ _ _ _ hA (by simp; omega)
+      rw [eA, eG, eD] at hK'
+      rw [eG] at hGt
+      have hBl : (sl.toks.take ins).length = ins := by simp; omega
+      have hK'sz : fsize K' = f + ins + (gt - gf) + (sl.size.toNat - ins) + D.length := by
+        rw [← ftoks_length K', hK']; simp; omega
+      obtain ⟨gap2, hgap2⟩ := sliceKids_total K' (f + ins) (f + ins + (gt - gf)) (by omega) (by omega)
+        ha.2.1 ha.2.2.1 hn'
+      have hg2n := sliceKids_norm K' _ _ gap2 hn' hgap2
+      have hXY : ftoks K' = (A ++ sl.toks.take ins) ++ G ++ (sl.toks.drop ins ++ D) := by
+        rw [hK']; simp
+      have hXl : (A ++ sl.toks.take ins).length = f + ins := by simp; omega
+      have hg2closed : gap2.openStart = 0 ∧ gap2.openEnd = 0 := by
+        by_cases hg0 : gt - gf = 0
+        · rw [hg0] at hgap2
+          simp [sliceKids] at hgap2
+          subst hgap2; exact ⟨rfl, rfl⟩
+        · refine sliceKids_closed K' _ _ gap2 (by omega) (by omega) hgap2 ?_ ?_
+          · intro k hk1 hk2
+            have e1 : (ftoks K').take (f + ins) = A ++ sl.toks.take ins := by
+              rw [hXY, List.append_assoc]; exact win_take _ _ _ hXl
+            have e2 : (ftoks K').take k = (A ++ sl.toks.take ins) ++ G.take (k - (f + ins)) := by
+              rw [hXY, List.append_assoc, take_app_ge _ _ _ (by omega), hXl,
+                take_app_le _ _ _ (by omega)]
+            rw [e1, e2]
+            simp only [balance_append]
+            have := balance_prefix_nonneg gap.content (k - (f + ins))
+            rw [hGt] at this
+            omega
+          · have e1 : (ftoks K').take (f + ins) = A ++ sl.toks.take ins := by
+              rw [hXY, List.append_assoc]; exact win_take _ _ _ hXl
+            have e2 : (ftoks K').take (f + ins + (gt - gf)) = (A ++ sl.toks.take ins) ++ G := by
+              rw [hXY]; exact win_take _ _ _ (by simp; omega)
+            rw [e1, e2]
+            simp only [balance_append]
+            have := balance_ftoks gap.content
+            rw [hGt] at this
+            omega
+      have eG2 : gap2.content = gap.content := by
+        apply ftoks_inj _ _ hg2n.1 hgn.1
+        have : gap2 = ⟨gap2.content, 0, 0⟩ := by
+          cases gap2; simp at hg2closed; simp [hg2closed.1, hg2closed.2]
+        rw [hGt, ← Slice.toks_closed, ← this,
+          sliceKids_toks K' _ _ gap2 (by omega) (by omega) hgap2, hXY,
+          show f + ins + (gt - gf) - (f + ins) = gt - gf by omega]
+        exact win_mid _ _ _ _ _ hXl hG
+      -- putting the gap back gives the old slice
+      have hxo : x = old := by
+        have e : gt - f = (gf - f) + (gt - gf) := by omega
+        rw [e] at hrm
+        refine reinsert_gap_eq S old rem x (gf - f) (gt - gf) gap.content hon.2 hon.1 hgn.1
+          (by rw [hosz]; omega) hrm ?_ hx
+        rw [hGt, eO, show P ++ G ++ Q = P ++ (G ++ Q) by simp, win_drop _ _ _ hP]
+        exact (win_take _ _ _ hG).symm
+      subst hxo
+      -- the final replace of the inverse is the inverse of the plain replace by `inserted`
+      have h1r : S.apply (.replace f t inserted false) (Node.elem ty a m K) = .ok (Node.elem ty a m K') := by
+        simpa [Schema.apply] using hfr1
+      have hir : S.invert (.replace f t inserted false) (Node.elem ty a m K)
+          = .ok (.replace f (f + inserted.size.toNat) x false) := by
+        simp [Schema.invert, hsl]
+      have hfin := replace_undo S _ _ f t inserted false _ hd (by simpa [Node.kids] using hn) hin h1r hir hj'
+        (by simp only [Node.kids]; rw [hisz, ← Nat.add_assoc]; exact ⟨ha.1, ha.2.2.2⟩)
+      rw [hisz, ← Nat.add_assoc] at hfin
+      simp only [Schema.apply, Bool.false_eq_true, if_false] at hfin
+      -- assemble
+      have hgap2' : (Node.elem ty a m K').slice (f + ins) (f + ins + (gt - gf)) = .ok gap2 := hgap2
+      have hx' : rem.insertAt S (gf - f) gap2.content = .ok (some x) := by rw [eG2]; exact hx
+      cases b with
+      | false =>
+        simp [Schema.apply, hgap2', hg2closed.1, hg2closed.2, hx', hfin]
+      | true =>
+        obtain ⟨c1, c2⟩ := hst rfl
+        simp [Schema.apply, c1, c2, hgap2', hg2closed.1, hg2closed.2, hx', hfin]
+
+/-- **replace-around steps of the shapes `lift`, `wrap` and `set_node_markup` emit**: when the gap lies
+    between complete children of the node it sits in (both ends at child boundaries of the same node, not
+    inside text) and the children before and after it are not two texts with equal marks (`gapClean`,
+    evaluated on the old slice `doc.slice(f, t)`), the fit guard of `replaceAround_undo` holds by itself —
+    `insert_into`'s `can_replace` check then sees exactly the child sequence of a node of the valid `doc`. -/
+theorem replaceAround_undo_structural (S : Schema) (doc doc' : Node) (f t gf gt : Nat) (sl : Slice)
+    (ins : Nat) (b : Bool) (inv : Step)
+    (hd : S.checkNode doc = true) (hn : fnorm doc.kids = true) (hsn : fnorm sl.content = true)
+    (hwf : sl.wf = true) (hins : (ins : Int) ≤ sl.size) (hg : f ≤ gf ∧ gf ≤ gt ∧ gt ≤ t)
+    (h1 : S.apply (.replaceAround f t gf gt sl ins b) doc = .ok doc')
+    (hi : S.invert (.replaceAround f t gf gt sl ins b) doc = .ok inv)
+    (hst : b = true → contentBetween doc' f (f + ins) = some false ∧
+      contentBetween doc' (f + ins + (gt - gf)) (f + sl.size.toNat + (gt - gf)) = some false)
+    (hclean : ∀ old, doc.slice f t = .ok old →
+      gapClean old.content none (gf - f + old.openStart) (gt - f + old.openStart) = true)
+    (hj : sidesCompatibleAround S doc f t gf gt sl ins = true)
+    (ha : alignedAt doc'.kids f = true ∧ alignedAt doc'.kids (f + ins) = true ∧
+      alignedAt doc'.kids (f + ins + (gt - gf)) = true ∧
+      alignedAt doc'.kids (f + sl.size.toNat + (gt - gf)) = true) :
+    S.apply inv doc' = .ok doc := by
+  refine replaceAround_undo S doc doc' f t gf gt sl ins b inv hd hn hsn hwf hins hg h1 hi hst ?_ hj ha
+  obtain ⟨gap, inserted, hgap, hgo1, hgo2, _, _⟩ :=
+    apply_replaceAround_parts S doc doc' f t gf gt sl ins b h1
+  obtain ⟨_, htK, _⟩ := apply_replaceAround_toks S doc doc' f t gf gt sl ins b hwf hins hg h1
+  simp only [Schema.invert] at hi
+  cases hsl : doc.slice f t with
+  | error e => simp [hsl] at hi
+  | ok old =>
+    simp only [hsl] at hi
+    cases hrm : old.removeBetween (gf - f) (gt - f) with
+    | error e => simp [hrm] at hi
+    | ok rem =>
+      exact gapFitsBack_of_clean S doc f t gf gt old rem gap hd hn hg htK hsl hgap ⟨hgo1, hgo2⟩ hrm
+        (hclean old hsl)
+
+/-! Non-vacuity of `replaceAround_undo`: wrapping `p("ab")` of `doc(p("ab"))` in a `quote`
+    (replace-around 0…4, gap 0…4, slice `quote()`, insert 1) gives `doc(quote(p("ab")))`; the inverse
+    (replace-around 0…6, gap 1…5, empty slice) lifts it out again. -/
+section ExampleAround
+private def wnt (name : String) (dfa : Array DfaState) : NodeType :=
+  { name := name, isText := false, isInline := false, isLeaf := false, isAtom := false,
+    inlineContent := false, isolating := false, defining := false, code := false,
+    dfa := dfa, markSet := some [], attrs := [] }
+
+/-- doc "(para|quote)*", quote "para*", para "text*" -/
+private def wrapS : Schema :=
+  { nodes := #[
+      wnt "doc" #[⟨true, [(1, 0), (2, 0)]⟩],
+      wnt "para" #[⟨true, [(3, 0)]⟩],
+      wnt "quote" #[⟨true, [(1, 0)]⟩],
+      { wnt "text" #[⟨true, []⟩] with isText := true, isInline := true, isLeaf := true, isAtom := true }],
+    marks := #[], top := 0, textTy := 3 }
+
+private def wDoc : Node := .elem 0 [] [] [.elem 1 [] [] [.text [97, 98] []]]
+private def wDoc' : Node := .elem 0 [] [] [.elem 2 [] [] [.elem 1 [] [] [.text [97, 98] []]]]
+private def wSl : Slice := ⟨[.elem 2 [] [] []], 0, 0⟩
+private def wInv : Step := .replaceAround 0 6 1 5 ⟨[], 0, 0⟩ 0 false
+
+private theorem w_slice : wDoc.slice 0 4 = .ok ⟨[.elem 1 [] [] [.text [97, 98] []]], 0, 0⟩ := by
+  simp [Node.slice, Node.kids, wDoc, sliceKids, inRange, sliceScan, sliceHere, fcut, depthAt]
+
+private theorem w_ins : wSl.insertAt wrapS 1 [.elem 1 [] [] [.text [97, 98] []]]
+    = .ok (some ⟨[.elem 2 [] [] [.elem 1 [] [] [.text [97, 98] []]]], 0, 0⟩) := by
+  have hc : wrapS.canReplace 2 [] 0 0 [Node.elem 1 [] [] [Node.text [97, 98] []]] 0 1 = some true := by decide
+  simp [Slice.insertAt, wSl, insertInto, flatInsert, hc, fcut, fappend]
+
+private theorem w_fwd : wrapS.apply (.replaceAround 0 4 0 4 wSl 1 false) wDoc = .ok wDoc' := by
+  have hv : wrapS.validContent 0 [Node.elem 2 [] [] [Node.elem 1 [] [] [Node.text [97, 98] []]]] = true := by
+    decide
+  simp only [Schema.apply, w_slice, w_ins]
+  simp [Schema.fromReplace, Schema.replace, wDoc, wDoc', replaceKids, inRange, depthAt, Slice.wf, spineL,
+    spineR, outer, atLevel, fcut, fappend, hv, Except.map]
+
+private theorem w_inv : wrapS.invert (.replaceAround 0 4 0 4 wSl 1 false) wDoc = .ok wInv := by
+  simp only [Schema.invert, w_slice]
+  simp [Slice.removeBetween, removeRange, removeRange.removeFlat, inRange, flatAt, fcut, fappend, wSl,
+    Slice.size, wInv]
+
+example : wrapS.apply wInv wDoc' = .ok wDoc := by
+  refine replaceAround_undo wrapS wDoc wDoc' 0 4 0 4 wSl 1 false _ ?_ ?_ ?_ ?_ ?_ ?_ w_fwd w_inv ?_ ?_ ?_ ?_
+  · decide
+  · simp [wDoc, Node.kids, fnorm, fnormKids, Node.norm, chainOk]
+  · simp [wSl, fnorm, fnormKids, Node.norm, chainOk]
+  · simp [wSl, Slice.wf, spineL, spineR]
+  · simp [wSl, Slice.size]
+  · omega
+  · intro h; simp at h
+  · simp only [gapFitsBack, w_slice]
+    simp [Slice.removeBetween, removeRange, removeRange.removeFlat, inRange, flatAt, fcut, fappend,
+      Slice.insertAt, insertInto, flatInsert]
+  · simp only [sidesCompatibleAround, w_slice, w_ins]
+    exact sidesCompatible_of_closed _ _ _ _ _ (.inl rfl)
+  · simp [wDoc', Node.kids, wSl, Slice.size, alignedAt]
+
+/-- the same through `replaceAround_undo_structural`: the gap is the whole child `p("ab")` -/
+example : wrapS.apply wInv wDoc' = .ok wDoc := by
+  refine replaceAround_undo_structural wrapS wDoc wDoc' 0 4 0 4 wSl 1 false _ ?_ ?_ ?_ ?_ ?_ ?_ w_fwd w_inv
+    ?_ ?_ ?_ ?_
+  · decide
+  · simp [wDoc, Node.kids, fnorm, fnormKids, Node.norm, chainOk]
+  · simp [wSl, fnorm, fnormKids, Node.norm, chainOk]
+  · simp [wSl, Slice.wf, spineL, spineR]
+  · simp [wSl, Slice.size]
+  · omega
+  · intro h; simp at h
+  · intro old h
+    rw [w_slice] at h
+    simp at h; subst h
+    simp [gapClean, gapEnd]
+  · simp only [sidesCompatibleAround, w_slice, w_ins]
+    exact sidesCompatible_of_closed _ _ _ _ _ (.inl rfl)
+  · simp [wDoc', Node.kids, wSl, Slice.size, alignedAt]
+end ExampleAround
+
+/-! The fit guard of `replaceAround_undo` cannot be dropped.  `doc "(X|Z)*"`, `X "text?"`, `Z "text*"`;
+    `doc(X("abXYcd"))`; the step "replace 0…8 around the gap 3…5 (`XY`) by `Z()`" gives `doc(Z("XY"))`.
+    Its inverse has to put `XY` back into `X("abcd")` at offset 2 of the text; `insert_into` asks
+    `X.can_replace(0, 0, [text])`, i.e. whether `text text` matches `text?`, and refuses. -/
+section NeedsFit
+private def fgnt (name : String) (dfa : Array DfaState) : NodeType :=
+  { name := name, isText := false, isInline := false, isLeaf := false, isAtom := false,
+    inlineContent := false, isolating := false, defining := false, code := false,
+    dfa := dfa, markSet := some [], attrs := [] }
+private def fgS : Schema :=
+  { nodes := #[
+      fgnt "doc" #[⟨true, [(1, 0), (2, 0)]⟩],
+      fgnt "X" #[⟨true, [(3, 1)]⟩, ⟨true, []⟩],
+      fgnt "Z" #[⟨true, [(3, 0)]⟩],
+      { fgnt "text" #[⟨true, []⟩] with isText := true, isInline := true, isLeaf := true, isAtom := true }],
+    marks := #[], top := 0, textTy := 3 }
+private def fgDoc : Node := .elem 0 [] [] [.elem 1 [] [] [.text [97, 98, 88, 89, 99, 100] []]]
+private def fgSl : Slice := ⟨[.elem 2 [] [] []], 0, 0⟩
+private def fgDoc' : Node := .elem 0 [] [] [.elem 2 [] [] [.text [88, 89] []]]
+private def fgOld : Slice := ⟨[.elem 1 [] [] [.text [97, 98, 88, 89, 99, 100] []]], 0, 0⟩
+private def fgRem : Slice := ⟨[.elem 1 [] [] [.text [97, 98, 99, 100] []]], 0, 0⟩
+private def fgInv : Step := .replaceAround 0 4 1 3 fgRem 3 false
+
+private theorem fg_slice08 : fgDoc.slice 0 8 = .ok fgOld := by
+  simp [Node.slice, Node.kids, fgDoc, fgOld, sliceKids, inRange, sliceScan, sliceHere, fcut, depthAt]
+
+private theorem fg_slice35 : fgDoc.slice 3 5 = .ok ⟨[.text [88, 89] []], 0, 0⟩ := by
+  simp [Node.slice, Node.kids, fgDoc, sliceKids, inRange, sliceScan, sliceHere, fcut, fcutLoop, cutText,
+    splitOk, isHigh, isLow, depthAt]
+
+private theorem fg_ins : fgSl.insertAt fgS 1 [.text [88, 89] []] = .ok (some ⟨[.elem 2 [] [] [.text [88, 89] []]], 0, 0⟩) := by
+  have hc : fgS.canReplace 2 [] 0 0 [Node.text [88, 89] []] 0 1 = some true := by decide
+  simp [Slice.insertAt, fgSl, insertInto, flatInsert, hc, fcut, fappend]
+
+private theorem fg_fwd : fgS.apply (.replaceAround 0 8 3 5 fgSl 1 false) fgDoc = .ok fgDoc' := by
+  have hv : fgS.validContent 0 [Node.elem 2 [] [] [Node.text [88, 89] []]] = true := by decide
+  simp only [Schema.apply, fg_slice35, fg_ins]
+  simp [Schema.fromReplace, Schema.replace, fgDoc, fgDoc', replaceKids, inRange, depthAt, Slice.wf, spineL,
+    spineR, outer, atLevel, fcut, fappend, hv, Except.map]
+
+private theorem fg_rem : fgOld.removeBetween 3 5 = .ok fgRem := by
+  simp [Slice.removeBetween, fgOld, fgRem, removeRange, removeRange.removeFlat, inRange, flatAt, fcut, fcutLoop,
+    cutText, splitOk, isHigh, isLow, fappend, addNode, Node.isText]
+
+private theorem fg_inv : fgS.invert (.replaceAround 0 8 3 5 fgSl 1 false) fgDoc = .ok fgInv := by
+  simp only [Schema.invert, fg_slice08]
+  simp [fg_rem, fgSl, Slice.size, fgInv]
+
+private theorem fg_nofit : fgRem.insertAt fgS 3 [.text [88, 89] []] = .ok none := by
+  have hc : fgS.canReplace 1 [Node.text [97, 98, 99, 100] []] 0 0 [Node.text [88, 89] []] 0 1 = some false := by
+    decide
+  simp [Slice.insertAt, fgRem, insertInto, flatInsert, hc]
+
+private theorem fg_gap2 : fgDoc'.slice 1 3 = .ok ⟨[.text [88, 89] []], 0, 0⟩ := by
+  simp [Node.slice, Node.kids, fgDoc', sliceKids, inRange, sliceScan, sliceHere, fcut, depthAt]
+
+private theorem fg_undo_fails : fgS.apply fgInv fgDoc' = .error .failed := by
+  simp [Schema.apply, fgInv, fg_gap2, fg_nofit]
+
+/-- **the fit guard `gapFitsBack` of `replaceAround_undo` is necessary** (structure flag off, the other
+    hypotheses hold): the inverse is rejected with `failed` ("Content does not fit in gap").  The same
+    happens in the code (and upstream). -/
+theorem replaceAround_undo_needs_guard :
+    ∃ (S : Schema) (doc doc' : Node) (f t gf gt : Nat) (sl : Slice) (ins : Nat) (inv : Step),
+      S.checkNode doc = true ∧ fnorm doc.kids = true ∧ fnorm sl.content = true ∧ sl.wf = true ∧
+      (ins : Int) ≤ sl.size ∧ (f ≤ gf ∧ gf ≤ gt ∧ gt ≤ t) ∧
+      S.apply (.replaceAround f t gf gt sl ins false) doc = .ok doc' ∧
+      S.invert (.replaceAround f t gf gt sl ins false) doc = .ok inv ∧
+      sidesCompatibleAround S doc f t gf gt sl ins = true ∧
+      (alignedAt doc'.kids f = true ∧ alignedAt doc'.kids (f + ins) = true ∧
+        alignedAt doc'.kids (f + ins + (gt - gf)) = true ∧
+        alignedAt doc'.kids (f + sl.size.toNat + (gt - gf)) = true) ∧
+      gapFitsBack S doc f t gf gt = false ∧
+      S.apply inv doc' = .error .failed := by
+  refine ⟨fgS, fgDoc, fgDoc', 0, 8, 3, 5, fgSl, 1, fgInv, by decide, ?_, ?_, ?_, ?_, by omega, fg_fwd, fg_inv,
+    ?_, ?_, ?_, fg_undo_fails⟩
+  · simp [fgDoc, Node.kids, fnorm, fnormKids, Node.norm, chainOk]
+  · simp [fgSl, fnorm, fnormKids, Node.norm, chainOk]
+  · simp [fgSl, Slice.wf, spineL, spineR]
+  · simp [fgSl, Slice.size]
+  · simp only [sidesCompatibleAround, fg_slice35, fg_ins]
+    exact sidesCompatible_of_closed _ _ _ _ _ (.inl rfl)
+  · simp [fgDoc', Node.kids, fgSl, Slice.size, alignedAt]
+  · simp only [gapFitsBack, fg_slice08, fg_slice35]
+    simp [fg_rem, fg_nofit]
+end NeedsFit
 
 mutual
 /-- every node carries its attributes the way the library builds them (`compute_attrs` would return
@@ -635,6 +1218,7 @@ theorem nodeMark_undo_needs_guard :
     have hle := List.length_filter_le (· != x) [(⟨2, []⟩ : Mark)]
     simp only [Mark.removeFromSet, List.length_cons, List.length_nil] at hlen hle
     omega
+
 
 /-! ## The inverse of a node-markup step applies (work package `wk-msuccess`)
 
